@@ -16,10 +16,25 @@ import (
 type aVal struct {
 	Op   string  `json:"op"`             // set unset incr append shift push pop pipeline
 	B    []byte  `json:"b,omitempty"`    // payload
+	L    int     `json:"l,omitempty"`    // set/append/push: payload of L bytes derived from (L, B) instead of B itself (large values)
 	N    int64   `json:"n,omitempty"`    // incr operand / shift length / pop count
 	P    []byte  `json:"p,omitempty"`    // optional property value (code 1)
 	FL   bool    `json:"fl,omitempty"`   // process-first-or-last flag
 	Subs []*aVal `json:"subs,omitempty"` // pipeline
+}
+
+// bytes: the payload the operation carries
+func (v *aVal) bytes() []byte {
+	if v.L <= 0 {
+		return append([]byte{}, v.B...)
+	}
+	b := make([]byte, v.L)
+	h := vHash("aval", v.L, fmt.Sprintf("%x", v.B))
+	for i := range b {
+		h = h*6364136223846793005 + 1442695040888963407
+		b[i] = byte(h >> 56)
+	}
+	return b
 }
 
 func (v *aVal) String() string {
@@ -27,6 +42,9 @@ func (v *aVal) String() string {
 	switch v.Op {
 	case "set", "append", "push":
 		s += fmt.Sprintf("%x", v.B)
+		if v.L > 0 {
+			s += fmt.Sprintf(" expanded to %d bytes", v.L)
+		}
 	case "incr", "shift", "pop":
 		s += fmt.Sprint(v.N)
 	case "pipeline":
@@ -54,7 +72,7 @@ func (v *aVal) commandData() *protocol.LockCommandData {
 	var d *protocol.LockCommandData
 	switch v.Op {
 	case "set":
-		d = protocol.NewLockCommandDataFromBytes(append([]byte{}, v.B...), protocol.LOCK_DATA_STAGE_CURRENT, protocol.LOCK_DATA_COMMAND_TYPE_SET, 0, v.props())
+		d = protocol.NewLockCommandDataFromBytes(v.bytes(), protocol.LOCK_DATA_STAGE_CURRENT, protocol.LOCK_DATA_COMMAND_TYPE_SET, 0, v.props())
 	case "unset":
 		d = protocol.NewLockCommandDataUnsetData()
 	case "incr":
@@ -64,11 +82,11 @@ func (v *aVal) commandData() *protocol.LockCommandData {
 			d = protocol.NewLockCommandDataIncrDataWithProperty(v.N, v.props())
 		}
 	case "append":
-		d = protocol.NewLockCommandDataFromBytes(append([]byte{}, v.B...), protocol.LOCK_DATA_STAGE_CURRENT, protocol.LOCK_DATA_COMMAND_TYPE_APPEND, 0, v.props())
+		d = protocol.NewLockCommandDataFromBytes(v.bytes(), protocol.LOCK_DATA_STAGE_CURRENT, protocol.LOCK_DATA_COMMAND_TYPE_APPEND, 0, v.props())
 	case "shift":
 		d = protocol.NewLockCommandDataShiftData(uint32(v.N))
 	case "push":
-		d = protocol.NewLockCommandDataFromBytes(append([]byte{}, v.B...), protocol.LOCK_DATA_STAGE_CURRENT, protocol.LOCK_DATA_COMMAND_TYPE_PUSH, 0, v.props())
+		d = protocol.NewLockCommandDataFromBytes(v.bytes(), protocol.LOCK_DATA_STAGE_CURRENT, protocol.LOCK_DATA_COMMAND_TYPE_PUSH, 0, v.props())
 	case "pop":
 		d = protocol.NewLockCommandDataPopData(uint32(v.N))
 	case "pipeline":
@@ -94,6 +112,9 @@ type aValue struct {
 func (v *aValue) String() string {
 	if v == nil {
 		return "<none>"
+	}
+	if len(v.Payload) > 48 {
+		return fmt.Sprintf("%x..%x(%d bytes, fnv %016x, arr=%v)", v.Payload[:8], v.Payload[len(v.Payload)-8:], len(v.Payload), vHash(v.Payload), v.Arr)
 	}
 	return fmt.Sprintf("%x(arr=%v)", v.Payload, v.Arr)
 }
@@ -160,7 +181,7 @@ func aArrayBytes(elems [][]byte) []byte {
 func aInterp(cur *aValue, op *aVal) *aValue {
 	switch op.Op {
 	case "set":
-		return &aValue{Payload: append([]byte{}, op.B...)}
+		return &aValue{Payload: op.bytes()}
 	case "unset":
 		return nil
 	case "incr":
@@ -175,9 +196,9 @@ func aInterp(cur *aValue, op *aVal) *aValue {
 		return &aValue{Payload: b[:]}
 	case "append":
 		if cur == nil {
-			return &aValue{Payload: append([]byte{}, op.B...)}
+			return &aValue{Payload: op.bytes()}
 		}
-		return &aValue{Payload: append(append([]byte{}, cur.Payload...), op.B...), Arr: cur.Arr}
+		return &aValue{Payload: append(append([]byte{}, cur.Payload...), op.bytes()...), Arr: cur.Arr}
 	case "shift":
 		if cur == nil || op.N <= 0 {
 			return cur
@@ -189,9 +210,9 @@ func aInterp(cur *aValue, op *aVal) *aValue {
 		return &aValue{Payload: append([]byte{}, cur.Payload[n:]...), Arr: cur.Arr}
 	case "push":
 		if cur == nil || !cur.Arr {
-			return &aValue{Payload: aArrayBytes([][]byte{op.B}), Arr: true}
+			return &aValue{Payload: aArrayBytes([][]byte{op.bytes()}), Arr: true}
 		}
-		return &aValue{Payload: append(append([]byte{}, cur.Payload...), aArrayBytes([][]byte{op.B})...), Arr: true}
+		return &aValue{Payload: append(append([]byte{}, cur.Payload...), aArrayBytes([][]byte{op.bytes()})...), Arr: true}
 	case "pop":
 		if cur == nil || !cur.Arr || op.N <= 0 {
 			return cur
